@@ -120,7 +120,7 @@ theorem C05_windows_respfactory {cfg : Cfg} {env : Env} {r : Response} {o : Repo
     (h : processRespFactory cfg env r = .identity o) :
     (∀ a ∈ visible r, timesOk cfg env a = true) ∧ issueInstantWithin cfg env r = true := by
   obtain ⟨rs, hacc⟩ := C04.visible_accepted_respfactory h
-  obtain ⟨p, _, hv, _⟩ := processRespFactory_identity_inv h
+  obtain ⟨cf, p, _, hv, _⟩ := processRespFactory_identity_inv h
   refine ⟨?_, verify_stale_instant hv⟩
   intro a ha
   obtain ⟨v, s, s', hs⟩ := hacc a ha
